@@ -119,6 +119,12 @@ class GotranPythonCodePrinter(PythonCodePrinter):
     #         f=self._module_format("numpy.copysign"), e=self._print(e.args[0])
     #     )
 
+    def _print_Mod(self, expr):
+        # A function call instead of ``%``: the inherited printer does not parenthesise
+        # ``a % b`` inside a product (-Mod(a, 2)*b was printed as -b*a % 2)
+        a, b = expr.args
+        return f"numpy.mod({self._print(a)}, {self._print(b)})"
+
     def _print_Not(self, expr):
         # Elementwise (the inherited printer emits Python's ``not``)
         return f"numpy.logical_not({self._print(expr.args[0])})"
